@@ -5,7 +5,9 @@ spec/Merkle.tla, tables "c06" (every size 0..N, every (m, n)) and "c06big" (seed
      RFC 6962 PATH / PROOF, the transcribed verifiers accept them.
   2. P-TABLE / P-REPLAY: the real CompactMerkleTree is driven 0..N in several lives (continuous, reloaded from the
      hash file before every append, Marshal/UnMarshal before every append, memory store, random reload points,
-     file with surplus nodes reopened at a smaller size and continued with other leaves); at every size the root,
+     NewTree over the same used store object before every append, file with surplus nodes reopened at a smaller size
+     and continued with other leaves, and ONE USED tree object with a warm root cache rolled back and forward between
+     Marshal snapshots of earlier and later sizes with UnMarshal); at every size the root,
      the predicted roots, the round trips and every proof of every earlier size are compared with the evaluated spec
      terms, and the real verifiers must accept every served proof.
 """
@@ -39,7 +41,7 @@ def run(ctx):
     ctx.cov["table_rows"] = len(rows) + len(rows2)
     return ctx.finish(rule="P-TABLE: one row per tree size (root, frontier, node file, predicted roots) and per (m, n) (inclusion "
                       "proof, leaf path, consistency proof) printed by TLC after the model-level check; the real tree is driven "
-                      "through 5 lives + surplus-file reopen scenarios; distinct_nontrivial = distinct (kind, n, m) queries and "
+                      "through 9 lives (incl. UnMarshal into a used object with cached root) + surplus-file reopen scenarios; distinct_nontrivial = distinct (kind, n, m) queries and "
                       "states compared.  Large sizes: %s" % sizes,
                       assumptions=["leaf data: random distinct byte strings (32 bytes, and assorted lengths incl. empty)",
                                    "SHA-256 collision resistance (free term algebra)",
